@@ -150,3 +150,33 @@ def check_C03(chk):
     return chk.finish(rule="cases = (length, maximal runs, query, argument) on the run-length vector built by 6 routes (per run, bit at a "
                            "time, split runs that must merge, set_len before each run, conversions), plus the run iterator with its "
                            "running offset/rank; distinct = distinct (content, query, argument)")
+
+
+def stage_gen_vec(chk, bins, kind, widths, depth, maxitems, simulate=None, label=""):
+    name = "GenVec_%s_%s" % (kind, label or ("d%d" % depth))
+    path, res = vlib.generate_cases(chk.work, name, "GenVec",
+                                    cfg_consts({"Kind": '"%s"' % kind, "Widths": widths, "Depth": depth, "MaxItems": maxitems}) + GEN_TAIL,
+                                    simulate=simulate, timeout=1200, seed=chk.seed)
+    chk.add_tlc(res, "GenVec %s widths=%s depth=%d %s" % (kind, widths, depth, "simulate " + simulate if simulate else "exhaustive"),
+                {"behaviours": len(res.replay_lines)})
+    out = vlib.harness(bins["dbg-native"], ["replay", "--kind", "vec", "--cases", path])
+    chk.add_replay(out, "replay %s on dbg-native" % name)
+
+
+def check_C05(chk):
+    bins = vlib.build_harness(["dbg-native"])
+    if chk.thorough:
+        stage_gen_vec(chk, bins, "int", "{1, 7, 31, 32, 33, 63, 64}", 2, 4)
+        stage_gen_vec(chk, bins, "int", "{7, 33, 64}", 3, 3, label="d3")
+        stage_gen_vec(chk, bins, "raw", "{}", 2, 3)
+        stage_gen_vec(chk, bins, "int", "{1, 7, 31, 32, 33, 63, 64}", 40, 6, simulate="num=1500", label="sim")
+        stage_gen_vec(chk, bins, "raw", "{}", 40, 5, simulate="num=1500", label="sim")
+    else:
+        stage_gen_vec(chk, bins, "int", "{1, 7, 33, 64}", 2, 4)
+        stage_gen_vec(chk, bins, "raw", "{}", 2, 3)
+        stage_gen_vec(chk, bins, "int", "{1, 7, 31, 32, 33, 63, 64}", 30, 6, simulate="num=80", label="sim")
+        stage_gen_vec(chk, bins, "raw", "{}", 30, 5, simulate="num=80", label="sim")
+    stage_trace(chk, bins, "vec", "TraceVec", invariants=("StateOK",), seeds=2 if chk.thorough else 1)
+    return chk.finish(rule="cases = call histories of IntVector / RawVector; after every call the result, the projected content, equality and "
+                           "byte-identity with a canonically built vector and count_ones are compared with the Layer A state machine; "
+                           "distinct = distinct history prefixes")
